@@ -114,10 +114,12 @@ class Source:
 
     def run(self, feeds):
         a = execs.run_ort(None, feeds, self.sess) if self.sess else ("err", self.sess_err or "ort disabled")
+        self.last_intermediates = None
         if self.ev:
             r = execs.run_ref(None, feeds, self.ev, intermediate=True)
             b = (r[0], r[1])
             scale = execs.magnitude_scale(r[2]) if r[0] == "ok" else 0.0
+            self.last_intermediates = r[2] if r[0] == "ok" else None
         else:
             b, scale = ("err", self.ev_err or "ref disabled"), 0.0
         if a[0] == "ok":
@@ -162,7 +164,7 @@ def decide(src: Source, new_model, feeds_list, rel=None, abs_=None):
         for o in outcomes:
             if o[0] == v:
                 return o
-    for v in ("ok", "inconclusive_split", "inconclusive_single_runtime", "skip_runtime_disagreement", "skip_source_fails"):
+    for v in ("ok", "inconclusive_split", "inconclusive_single_runtime", "inconclusive_discontinuity", "skip_runtime_disagreement", "skip_source_fails"):
         for o in outcomes:
             if o[0] == v:
                 return o
@@ -198,8 +200,49 @@ def _decide_one(src, new, feeds, rel, abs_):
             # (undefined kernel behaviour such as reductions over empty tensors shows up exactly here)
             return ("inconclusive_single_runtime", f"ort: {cmp_ort} | ref: {cmp_ref}")
         # both runtimes ran M; each of them either differs on M' or cannot run M'
+        why = _roundoff_through_discontinuity(src, new, feeds, scale, k, rel, abs_)
+        if why:
+            return ("inconclusive_discontinuity", why)
         return ("violation_values", f"ort: {cmp_ort} | ref: {cmp_ref} | input {_feeds_repr(feeds)}")
     return ("inconclusive_split", f"ort: {cmp_ort!r} | ref: {cmp_ref!r}")
+
+
+DISCONTINUOUS = {"Ceil", "Floor", "Round", "Sign", "Equal", "Less", "Greater", "LessOrEqual", "GreaterOrEqual", "ArgMax", "ArgMin", "TopK", "Mod",
+                 "IsInf", "IsNaN", "Hardmax", "Cast", "CastLike", "NonZero", "Where", "Not", "And", "Or", "Xor", "Unique", "OneHot", "Div", "Reciprocal",
+                 "Log", "Sqrt", "Pow", "Tan", "If", "Loop", "Shrink", "ThresholdedRelu", "BitShift", "Trilu"}
+
+
+def _roundoff_through_discontinuity(src, new, feeds, scale, k, rel, abs_):
+    """Both models ran on onnx.reference.  Walk M's main-graph nodes in order; if the FIRST value (kept under the same name in M')
+    that differs beyond tolerance is the output of a discontinuous / ill-conditioned operator whose inputs agree within tolerance
+    (but not exactly), the output difference is round-off amplified by that operator, not a semantic change."""
+    if src.ev is None or new.ev is None or src.last_intermediates is None:
+        return None
+    r1 = src.last_intermediates
+    r = execs.run_ref(None, feeds, new.ev, intermediate=True)
+    if r[0] != "ok":
+        return None
+    r2 = r[2]
+    for node in src.model.graph.node:
+        for o in node.output:
+            if o and o in r1 and o in r2:
+                d = same_array(r1[o], r2[o], scale, k, rel, abs_) if not isinstance(r1[o], list) else None
+                if d:
+                    if node.op_type not in DISCONTINUOUS:
+                        return None
+                    inexact = False
+                    for x in node.input:
+                        if not x:
+                            continue
+                        if x not in r1 or x not in r2 or isinstance(r1[x], list):
+                            return None
+                        if same_array(r1[x], r2[x], scale, k, rel, abs_):
+                            return None  # an input already differs beyond tolerance: not our first difference
+                        a1, a2 = np.asarray(r1[x]), np.asarray(r2[x])
+                        if a1.shape != a2.shape or not np.array_equal(a1, a2, equal_nan=a1.dtype.kind == "f"):
+                            inexact = True
+                    return f"first difference at {node.op_type} output '{o}' whose inputs agree only up to round-off" if inexact else None
+    return None
 
 
 def _feeds_repr(feeds):
